@@ -109,8 +109,22 @@ def build_case(ch, thorough, ctx):
     if not withq:
         ctx.exclude('integer Quotient not generated (known: C09:via-unsound-simplify, see C08)')
     a = gen.build_tree(ch, 'int', depth, cfg)
-    how = ch.pick(['independent', 'offset', 'reversed', 'same', 'doubled', 'negated', 'plus-zero-sum', 'independent', 'offset'])
-    if how == 'independent':
+    how = ch.pick(['independent', 'offset', 'reversed', 'same', 'doubled', 'negated', 'plus-zero-sum', 'independent', 'offset',
+                   'expanded'])
+    if how == 'expanded':
+        # a product of a sum with a bare literal summand against its (correctly or sign-perturbed) expansion plus a constant:
+        # the difference is a constant exactly when the expansion is right, so a definite order answer is at stake
+        x, y = gen.build_tree(ch, 'int', 1, cfg), gen.build_tree(ch, 'int', 1, cfg)
+        c, k = ch.int(-2, 2), ch.int(-2, 2)
+        s = ['Sum', [['Int', c], x]] if ch.bool() else ['Sum', [x, ['Int', c]]]
+        a = ['Product', [s, y]] if ch.bool() else ['Product', [y, s]]
+        sc, sx = ch.pick([1, 1, 1, -1]), ch.pick([1, 1, 1, -1])
+        xy = ['Product', [x, y]]
+        terms = [['Product', [['Int', sc * c], y]], xy if sx == 1 else gen.neg(xy)]
+        if ch.bool():
+            terms.reverse()
+        b = ['Sum', terms + [['Int', k]]]
+    elif how == 'independent':
         b = gen.build_tree(ch, 'int', depth, cfg)
     elif how == 'offset':
         c = ch.int(-2, 2)
